@@ -305,7 +305,7 @@ type GenParams struct {
 	Probes    bool     // also emit "probe" ops (C02) with arbitrary keys
 }
 
-var DefaultOrders = []int{3, 4, 5, 6, 7, 8, 9, 16, 33}
+var DefaultOrders = []int{3, 4, 5, 6, 7, 8, 9, 16, 33, 40, 64, 100}
 
 // Gen returns a rapid generator of cases.  All randomness comes from rapid; a
 // tiny live-key set is tracked so that removals of present keys are common.
